@@ -93,7 +93,10 @@ def write_request(tables, uri, inc, newver, fname):
     return [Sym("write_doc"), tables[:4], [uri, inc, T0.isoformat(), "NOW", [] if newver is None else [newver], fname]]
 
 def make_graph(rng, quick, hostile=False, clash=False, shape=None):
-    g = nsgen.gen_graph(rng, n_ns=3 if shape else rng.randint(1, 3), n_nodes=rng.randint(5, 7) if shape else rng.randint(2, 6 if quick else 9), hostile=hostile, dangling=False, value_gen=parseprops.value_gen)
+    if shape == "wide":      # ten namespaces with one or two nodes each and sparse dependencies: compaction over a long table
+        g = nsgen.gen_graph(rng, n_ns=rng.randint(9, 11), n_nodes=rng.randint(12, 16), hostile=hostile, dangling=False, value_gen=parseprops.value_gen)
+    else:
+        g = nsgen.gen_graph(rng, n_ns=3 if shape else rng.randint(1, 3), n_nodes=rng.randint(5, 7) if shape else rng.randint(2, 6 if quick else 9), hostile=hostile, dangling=False, value_gen=parseprops.value_gen)
     if shape == "skip-middle" and len(g.uris) == 3:
         # namespace A (first) never uses B (second) but qualifies a browse name with C (third): when A is written, B is dropped and C's index moves
         A, B, C = g.uris
@@ -108,6 +111,23 @@ def make_graph(rng, quick, hostile=False, clash=False, shape=None):
             for a_, v_ in list(g.nodes[k]["attrs"].items()):
                 if isinstance(v_, tuple) and v_[0] == B: g.nodes[k]["attrs"][a_] = (UA, "i", "85") if a_ != "DataType" else (UA, "i", "24")
         g.refs = [r for r in g.refs if not ((r[0][0] == A or r[1][0] == A) and B in (r[0][0], r[1][0], r[2][0]))]
+    if shape == "attr-only" and len(g.uris) == 3:
+        # namespace A reaches C ONLY through node attributes (a DataType and a MethodDeclarationId defined in C): no reference, no browse name
+        A, B, C = g.uris
+        dC = (C, "i", "7101"); mC = (C, "s", "DeclaredMethod"); vA = (A, "i", "7102"); mA = (A, "s", "CallIt")
+        org = (UA, "i", "35"); objs = (UA, "i", "85")
+        g.nodes[dC] = dict(cls="UADataType", bname=(C, "DeviceState"), display="DeviceState", desc=None, attrs={}, value=None)
+        g.nodes[mC] = dict(cls="UAMethod", bname=(C, "DeclaredMethod"), display="DeclaredMethod", desc=None, attrs={}, value=None)
+        g.nodes[vA] = dict(cls="UAVariable", bname=(A, "State"), display="State", desc=None, attrs={"DataType": dC}, value=None)
+        g.nodes[mA] = dict(cls="UAMethod", bname=(A, "CallIt"), display="CallIt", desc=None, attrs={"MethodDeclarationId": mC}, value=None)
+        for k in (dC, mC, vA, mA):
+            g.order.append(k); g.refs.append((objs, k, org))
+        for k in [k for k in g.order if k[0] == A and k not in (vA, mA)]:
+            n = g.nodes[k]
+            if n["bname"][0] == C: n["bname"] = (A, n["bname"][1])
+            for a_, v_ in list(n["attrs"].items()):
+                if isinstance(v_, tuple) and v_[0] == C: n["attrs"][a_] = (UA, "i", "85") if a_ != "DataType" else (UA, "i", "24")
+        g.refs = [r for r in g.refs if not ((r[0][0] == A or r[1][0] == A) and C in (r[0][0], r[1][0], r[2][0]))]
     if clash:          # one browse name carried by nodes of two node classes
         own = [k for k in g.order if k[0] != UA]
         pairs = [(a, b) for a in own for b in own if g.nodes[a]["cls"] != g.nodes[b]["cls"]]
@@ -260,6 +280,7 @@ def oracle_c07(uri, out):
 
 C05_COLS = ["DataType", "ValueRank", "ArrayDimensions", "AccessLevel", "UserAccessLevel", "IsAbstract", "Symmetric", "ParentNodeId", "MethodDeclarationId", "EventNotifier",
             "Historizing", "MinimumSamplingInterval", "WriteMask", "SymbolicName"]
+STRUCTURAL_CAUSES = {"empty-namespace", "namespace-without-base-use", "quote-in-attribute", "raw-nodeid-attribute", "uri-unescaped"}
 def oracle_c05(work, G, tables, g, base_file):
     """write every non-base namespace, parse the written files with the untouched base file, compare the graphs at URI level"""
     files = [base_file]
@@ -298,7 +319,7 @@ def run(ctx, prop):
     try:
         for ci in range({"quick": 14, "thorough": 300}[ctx.tier]):
             hostile = rng.random() < 0.4
-            g, ds = make_graph(rng, ctx.quick(), hostile=hostile, shape="skip-middle" if ci % 7 == 0 else None)
+            g, ds = make_graph(rng, ctx.quick(), hostile=hostile, shape="skip-middle" if ci % 7 == 0 else ("wide" if ci % 7 == 3 else ("attr-only" if ci % 7 == 5 else None)))
             files = [(n, docs.render(d, rng)) for n, d, _ in ds]
             paths = graphprops.write_files(work, files)
             st, G = graphprops.build(paths)
@@ -322,7 +343,9 @@ def run(ctx, prop):
                     for uri in g.uris:
                         if uri in G.namespaces: causes |= write_causes(G, tables, uri, outs.get((uri, True), ["ok", ""]))
                     for sig, detail in oracle_c05(work, G, tables, g, base[0]):
-                        ctx.fail(("C05/known:" + "+".join(sorted(causes))) if causes else sig, dict(kind="roundtrip", files=files, vseed=vseed), sig + ": " + detail)
+                        # a recorded defect absorbs only the kind of failure it explains: the defaulted version shows in the models and nowhere else
+                        cs = causes & ({"model-version-defaulted"} if sig == "C05/models" else STRUCTURAL_CAUSES)
+                        ctx.fail(("C05/known:" + "+".join(sorted(cs))) if cs else sig, dict(kind="roundtrip", files=files, vseed=vseed), sig + ": " + detail)
                     # the same round trip executed INSIDE the model (write_text for every namespace, then parse_text_files on those texts and the
                     # untouched base document) against the implementation's write-then-parse_xml_files, both reduced to (URI, identifier) level
                     targets = [u for u in G.namespaces[1:] if u != "None"]
@@ -523,7 +546,10 @@ def case_replay(case, prop):
             out = impl_write(copy.deepcopy(G), uri, inc)
             causes = write_causes(G, tables, uri, out, inc) - {"model-version-defaulted"}
             fl = oracle_c06(tables, uri, inc, out) if prop == "C06" else oracle_c07(uri, out)
-        return [(("%s/known:" % prop + "+".join(sorted(causes))) if causes else sig, sig + ": " + detail) for sig, detail in fl]
+        def attributed(sig):
+            cs = causes & ({"model-version-defaulted"} if sig == "C05/models" else STRUCTURAL_CAUSES) if case["kind"] == "roundtrip" else causes
+            return ("%s/known:" % prop + "+".join(sorted(cs))) if cs else sig
+        return [(attributed(sig), sig + ": " + detail) for sig, detail in fl]
     finally:
         shutil.rmtree(work, ignore_errors=True)
 
@@ -540,6 +566,9 @@ def write_replay(case, prop):
         if prop == "C06": fl = oracle_c06(tables, uri, True, out); causes -= {"model-version-defaulted"}
         elif prop == "C07": fl = oracle_c07(uri, out); causes -= {"model-version-defaulted"}
         else: fl = oracle_c05(work, G, tables, None, files[0])
-        return [(("%s/known:" % prop + "+".join(sorted(causes))) if causes else sig, sig + ": " + detail) for sig, detail in fl]
+        def attributed(sig):
+            cs = causes & ({"model-version-defaulted"} if sig == "C05/models" else STRUCTURAL_CAUSES) if case["kind"] == "roundtrip" else causes
+            return ("%s/known:" % prop + "+".join(sorted(cs))) if cs else sig
+        return [(attributed(sig), sig + ": " + detail) for sig, detail in fl]
     finally:
         shutil.rmtree(work, ignore_errors=True)
